@@ -29,6 +29,8 @@ def check(ctx, tier):
     fs = [ctx.func(VB + n) for n in ("_index_rows", "set_dtype", "__init__")] + [ctx.func("raggedshape.RaggedShape.__init__"), ctx.func("raggedshape.build_indices")]
     hazards.h4_take_with_unknown_index(ctx, tk, "C19.a", fs)
     W.report(ctx, tk, "C19.d", fs)
+    from .. import hazards as _hz, scopes as _sc
+    _hz.generic(ctx, tk, "C19.z", _sc.scope(tk, "C19"))
     return {}
 
 
@@ -148,5 +150,6 @@ def threading(ctx, tk):
             n_calls += 1
             if any((attr_chain(y) or ("",))[-1] == "_dtype" for y in walk(c)):
                 n_used += 1
-        ctx.decide("C19.d", f, what, True if (n_calls and n_used == n_calls) else (False if n_used == 0 else None),
-                   "%d of %d array constructions use self._dtype" % (n_used, n_calls), key="threaded", engine="E6")
+        ctx.decide("C19.d", f, what, True if (n_calls and n_used == n_calls) else False,
+                   "%d of %d geometry array constructions use self._dtype: codes of another width are later reinterpreted with the configured one" % (n_used, n_calls),
+                   key="threaded", engine="E6")
